@@ -5,14 +5,20 @@ package main
 // input  = (api cfg store traces fixed)
 //   api     0 TraverseV1 | 1 NewSelectiveWriter+WriteTo | 2 TraverseToFile
 //           3 root SelectiveCar Write / Prepare / Dump  | 4 root WriteCar
-//   cfg     (roots sel opts ties)        -- everything needed to re-run the implementation
+//   cfg     (roots sel opts ties sels)        -- everything needed to re-run the implementation
 //     roots (cid ...)                     (api 0..2: exactly one)
 //     sel   (kind depth (path ...))       selector description (selSpec)
 //     opts  (dpad ipad codec dups budget chooser nilroots plain ncbw ncbd)
 //     ties  1 when two distinct CIDs of the store share a digest (index byte order unspecified)
 //   store   ((cid data) ...)             the blocks the link system / block store holds
+//     sels  api 3: one selector description per Dag entry (roots[i], sels[i])
 //   traces  (((cid data nread touched) ...) ok) ...   the ORACLE: what the traversal library
-//           opened, in order, per walk (recorded by a logging link system / store / node getter)
+//           opened, in order, per walk (recorded by a logging link system / store / node getter);
+//           api 0..2: the walk(s) as seen through go-car's loaders, then (last) a REFERENCE run of
+//           the same (root, selector, options) walk directly on ipld-prime (refWalkV2);
+//           api 3: one trace per Dag entry from a reference run (refWalkDags); api 4: the CIDs a
+//           reference merkledag.Walk presents to its visit function (refVisits); what go-car's own
+//           runs fetched is an observable
 //   fixed   1: model the repaired counting loader
 //
 // observation: see travObs* below; the extracted model prints the same shapes (RunTrav.v).
@@ -44,6 +50,7 @@ import (
 	"github.com/ipld/go-ipld-prime/linking"
 	cidlink "github.com/ipld/go-ipld-prime/linking/cid"
 	"github.com/ipld/go-ipld-prime/node/basicnode"
+	"github.com/ipld/go-ipld-prime/traversal"
 	"github.com/ipld/go-ipld-prime/traversal/selector"
 	selb "github.com/ipld/go-ipld-prime/traversal/selector/builder"
 	"github.com/multiformats/go-multicodec"
@@ -52,7 +59,7 @@ import (
 // ---- case description -------------------------------------------------------------------
 
 type selSpec struct {
-	kind  uint64 // 0 explore-all-recursive, 1 depth-limited explore-all, 2 field path then explore-all below, 3 match root only, 4 union of two field paths
+	kind  uint64 // 0 explore-all-recursive, 1 depth-limited explore-all, 2 field path then explore-all below, 3 match root only, 4 union of two field paths, 5 field path only (match its target)
 	depth uint64
 	path  []string
 	path2 []string
@@ -103,6 +110,8 @@ func (s selSpec) node() datamodel.Node {
 		return pathTo(s.path, all).Node()
 	case 3:
 		return ssb.Matcher().Node()
+	case 5:
+		return pathTo(s.path, ssb.Matcher()).Node()
 	default:
 		return ssb.ExploreUnion(pathTo(s.path, all), pathTo(s.path2, all)).Node()
 	}
@@ -172,8 +181,16 @@ type travCase struct {
 	api   uint64
 	roots []cid.Cid
 	sel   selSpec
+	sels  []selSpec // api 3: one selector per Dag entry (roots[i], sels[i]); empty = sel for all
 	opts  travOpts
 	store []Blk // ordered table; lookups by CID key
+}
+
+func (tc *travCase) dagSel(i int) selSpec {
+	if i < len(tc.sels) {
+		return tc.sels[i]
+	}
+	return tc.sel
 }
 
 func (tc *travCase) storeMap() map[string][]byte {
@@ -221,6 +238,14 @@ func (w *walkLog) val(ok bool) Val {
 		ls = append(ls, VL{VB(l.cid), VB(l.data), VN(l.nread), vbool(l.touched)})
 	}
 	return VL{ls, vbool(ok)}
+}
+
+func (w *walkLog) cids() Val {
+	out := VL{}
+	for _, l := range w.loads {
+		out = append(out, VB(l.cid))
+	}
+	return out
 }
 
 type cntReader struct {
@@ -288,6 +313,127 @@ func (s loggingStore) Get(_ context.Context, c cid.Cid) (blocks.Block, error) {
 	}
 	(*s.cur).loads = append((*s.cur).loads, &loadRec{cid: c.Bytes(), data: d, nread: uint64(len(d)), touched: true})
 	return blocks.NewBlockWithCid(d, c)
+}
+
+// refWalkDags is the reference for the root-module SelectiveCar: for every Dag entry in order, the
+// selector walk the API promises -- Load(root) with the dag-pb-aware prototype chooser, then
+// WalkAdv of the Dag's selector with LinkVisitOnlyOnce = TraverseLinksOnlyOnce and a fresh link
+// budget of MaxTraversalLinks -- run directly on ipld-prime over a logging link system backed by
+// the same block table (hashes verified, as cidlink.DefaultLinkSystem does).  One trace per Dag;
+// the first failing walk ends the list (SelectiveCar aborts there).
+func refWalkDags(store map[string][]byte, tc *travCase) Val {
+	out := VL{}
+	nsc := func(lnk datamodel.Link, _ linking.LinkContext) (datamodel.NodePrototype, error) {
+		if cl, ok := lnk.(cidlink.Link); ok && cl.Cid.Prefix().Codec == cid.DagProtobuf {
+			return dagpb.Type.PBNode, nil
+		}
+		return basicnode.Prototype.Any, nil
+	}
+	for i, r := range tc.roots {
+		cur := &walkLog{}
+		ls := loggingLinkSystem(store, &cur)
+		err := func() error {
+			parsed, err := selector.ParseSelector(tc.dagSel(i).node())
+			if err != nil {
+				return err
+			}
+			lnk := cidlink.Link{Cid: r}
+			ns, _ := nsc(lnk, linking.LinkContext{})
+			nd, err := ls.Load(linking.LinkContext{Ctx: context.Background()}, lnk, ns)
+			if err != nil {
+				return err
+			}
+			prog := traversal.Progress{Cfg: &traversal.Config{
+				Ctx:                            context.Background(),
+				LinkSystem:                     ls,
+				LinkTargetNodePrototypeChooser: nsc,
+				LinkVisitOnlyOnce:              !tc.opts.dups,
+			}}
+			if tc.opts.budget != 0 {
+				prog.Budget = &traversal.Budget{NodeBudget: math.MaxInt64, LinkBudget: int64(tc.opts.budget - 1)}
+			}
+			return prog.WalkAdv(nd, parsed, func(traversal.Progress, datamodel.Node, traversal.VisitReason) error { return nil })
+		}()
+		out = append(out, cur.val(err == nil))
+		if err != nil {
+			break
+		}
+	}
+	return out
+}
+
+// refWalkV2 is the reference for the v2 writers: the walk v2's options promise for (root, selector)
+// -- trusted storage, basicnode.Any (or the caller's dag-pb-aware chooser), LinkVisitOnlyOnce =
+// !AllowDuplicatePuts, link budget MaxTraversalLinks, WalkMatching -- run directly on ipld-prime.
+func refWalkV2(store map[string][]byte, tc *travCase) Val {
+	cur := &walkLog{}
+	ls := loggingLinkSystem(store, &cur)
+	ls.TrustedStorage = true
+	chooser := func(datamodel.Link, linking.LinkContext) (datamodel.NodePrototype, error) {
+		return basicnode.Prototype.Any, nil
+	}
+	if tc.opts.chooser {
+		chooser = dagpb.AddSupportToChooser(chooser)
+	}
+	err := func() error {
+		sel, err := selector.CompileSelector(tc.sel.node())
+		if err != nil {
+			return err
+		}
+		lnk := cidlink.Link{Cid: tc.roots[0]}
+		rp, err := chooser(lnk, linking.LinkContext{})
+		if err != nil {
+			return err
+		}
+		nd, err := ls.Load(linking.LinkContext{}, lnk, rp)
+		if err != nil {
+			return err
+		}
+		prog := traversal.Progress{Cfg: &traversal.Config{
+			Ctx:                            context.Background(),
+			LinkSystem:                     ls,
+			LinkTargetNodePrototypeChooser: chooser,
+			LinkVisitOnlyOnce:              !tc.opts.dups,
+		}}
+		if tc.opts.budget != 0 {
+			prog.Budget = &traversal.Budget{NodeBudget: math.MaxInt64, LinkBudget: int64(tc.opts.budget - 1)}
+		}
+		return prog.WalkMatching(nd, sel, func(traversal.Progress, datamodel.Node) error { return nil })
+	}()
+	return cur.val(err == nil)
+}
+
+// refVisits is the reference for WriteCar: merkledag.Walk over the same block table with the
+// harness's own visit function (one seen set shared by all roots, every presented CID logged) and a
+// getLinks that only fetches.  A presented CID whose fetch fails ends the walk and is not part of the
+// sequence (nothing is written for it).
+func refVisits(store map[string][]byte, roots []cid.Cid) Val {
+	out := &walkLog{}
+	seen := cid.NewSet()
+	visit := func(c cid.Cid) bool {
+		d := store[c.KeyString()]
+		out.loads = append(out.loads, &loadRec{cid: c.Bytes(), data: d, nread: uint64(len(d)), touched: true})
+		return seen.Visit(c)
+	}
+	getLinks := func(_ context.Context, c cid.Cid) ([]*format.Link, error) {
+		d, ok := store[c.KeyString()]
+		if !ok {
+			return nil, errNotFound{c}
+		}
+		nd, err := decodeFormatNode(c, d)
+		if err != nil {
+			return nil, err
+		}
+		return nd.Links(), nil
+	}
+	var err error
+	for _, r := range roots {
+		if err = merkledag.Walk(context.Background(), getLinks, r, visit); err != nil {
+			out.loads = out.loads[:len(out.loads)-1]
+			break
+		}
+	}
+	return out.val(err == nil)
 }
 
 // loggingGetter: format.NodeGetter for WriteCar; records Get calls and (through the walk
@@ -378,6 +524,7 @@ func (g *loggingGetter) walk(nd format.Node) ([]*format.Link, error) {
 	return ls, nil
 }
 
+// (kept for other producers; C15 itself now uses refVisits)
 // visitSequence rebuilds the sequence of CIDs merkledag's sequential walk presented to the
 // visit function from the logged Get / walk events: a presented CID was "first visit" exactly
 // when the next logged Get is for it.
@@ -505,13 +652,13 @@ func runTrav(c *Ctx, tc *travCase) (traces Val, obs Val) {
 		ls := loggingLinkSystem(store, &cur)
 		var buf bytes.Buffer
 		n, err := carv2.TraverseV1(ctx, &ls, tc.roots[0], tc.sel.node(), &buf, tc.opts.v2()...)
-		return VL{cur.val(err == nil)}, VL{VB(buf.Bytes()), VN(n), travErr(err)}
+		return VL{cur.val(err == nil), refWalkV2(store, tc)}, VL{VB(buf.Bytes()), VN(n), travErr(err)}
 	case 1:
 		ls := loggingLinkSystem(store, &cur)
 		w, err := carv2.NewSelectiveWriter(ctx, &ls, tc.roots[0], tc.sel.node(), tc.opts.v2()...)
 		t1 := cur.val(err == nil)
 		if err != nil {
-			return VL{t1, (&walkLog{}).val(true)}, VL{VT("ctor"), travErr(err)}
+			return VL{t1, (&walkLog{}).val(true), refWalkV2(store, tc)}, VL{VT("ctor"), travErr(err)}
 		}
 		cur = &walkLog{}
 		var buf bytes.Buffer
@@ -521,7 +668,7 @@ func runTrav(c *Ctx, tc *travCase) (traces Val, obs Val) {
 		// the same bytes in both cases, so ok=false is a safe reading of "other"
 		walkOK := werr == nil || errors.Is(werr, carv2.ErrSizeMismatch) || errors.Is(werr, carv2.ErrOffsetImpossible)
 		pre, idx := splitIndex(buf.Bytes())
-		return VL{t1, cur.val(walkOK)}, VL{VT("ok"), VB(pre), idxObs(idx, tc.store, ties), VN(uint64(n)), travErr(werr)}
+		return VL{t1, cur.val(walkOK), refWalkV2(store, tc)}, VL{VT("ok"), VB(pre), idxObs(idx, tc.store, ties), VN(uint64(n)), travErr(werr)}
 	case 2:
 		ls := loggingLinkSystem(store, &cur)
 		path := filepath.Join(c.Work, "ttf.car")
@@ -531,32 +678,34 @@ func runTrav(c *Ctx, tc *travCase) (traces Val, obs Val) {
 		data, _ := os.ReadFile(path)
 		os.Remove(path)
 		pre, idx := splitIndex(data)
-		return VL{cur.val(walkOK)}, VL{VB(pre), idxObs(idx, tc.store, ties), travErr(err)}
+		return VL{cur.val(walkOK), refWalkV2(store, tc)}, VL{VB(pre), idxObs(idx, tc.store, ties), travErr(err)}
 	case 3:
 		st := loggingStore{store, &cur}
 		var dags []carv1.Dag
-		for _, r := range tc.roots {
-			dags = append(dags, carv1.Dag{Root: r, Selector: tc.sel.node()})
+		for i, r := range tc.roots {
+			dags = append(dags, carv1.Dag{Root: r, Selector: tc.dagSel(i).node()})
 		}
 		sc := carv1.NewSelectiveCar(ctx, st, dags, tc.opts.root()...)
 		var wbuf bytes.Buffer
 		wlog := &cbLog{}
 		werr := sc.Write(&wbuf, wlog.callbacks(tc.opts.ncbW)...)
-		tW := cur.val(werr == nil)
-		wobs := VL{VB(wbuf.Bytes()), travErr(werr), wlog.val()}
+		wobs := VL{VB(wbuf.Bytes()), travErr(werr), wlog.val(), cur.cids()}
 		cur = &walkLog{}
 		dlog := &cbLog{}
 		prep, perr := sc.Prepare(dlog.callbacks(tc.opts.ncbD)...)
-		tP := cur.val(perr == nil)
+		pgets := cur.cids()
+		// the oracle: what each (root, selector) walk opens, from a reference run of the
+		// traversal library that does not go through go-car
+		ref := refWalkDags(store, tc)
 		if perr != nil {
-			return VL{tW, tP}, VL{wobs, VL{travErr(perr), VN(0), VL{}, VL{}}, VL{VT("skipped")}}
+			return ref, VL{wobs, VL{travErr(perr), VN(0), VL{}, VL{}, pgets}, VL{VT("skipped")}}
 		}
-		pobs := VL{travErr(nil), VN(prep.Size()), cidsVal(prep.Cids()), cidsVal(prep.Header().Roots)}
+		pobs := VL{travErr(nil), VN(prep.Size()), cidsVal(prep.Cids()), cidsVal(prep.Header().Roots), pgets}
 		cur = &walkLog{}
 		var dbuf bytes.Buffer
 		derr := prep.Dump(ctx, &dbuf)
 		dobs := VL{VB(dbuf.Bytes()), travErr(derr), dlog.val()}
-		return VL{tW, tP}, VL{wobs, pobs, dobs}
+		return ref, VL{wobs, pobs, dobs}
 	default:
 		g := &loggingGetter{store: store}
 		var buf bytes.Buffer
@@ -570,12 +719,22 @@ func runTrav(c *Ctx, tc *travCase) (traces Val, obs Val) {
 		} else {
 			err = carv1.WriteCarWithWalker(ctx, g, roots, &buf, g.walk)
 		}
-		return VL{g.visitSequence(tc.roots).val(err == nil)}, VL{VB(buf.Bytes()), travErr(err)}
+		gets := VL{}
+		for _, ev := range g.events {
+			if !ev.failed {
+				gets = append(gets, VB(ev.c.Bytes()))
+			}
+		}
+		return VL{refVisits(store, tc.roots)}, VL{VB(buf.Bytes()), travErr(err), gets}
 	}
 }
 
 func (tc *travCase) cfgVal() Val {
-	return VL{cidsVal(tc.roots), tc.sel.val(), tc.opts.val(), vbool(tc.ties())}
+	sels := VL{}
+	for _, x := range tc.sels {
+		sels = append(sels, x.val())
+	}
+	return VL{cidsVal(tc.roots), tc.sel.val(), tc.opts.val(), vbool(tc.ties()), sels}
 }
 
 const travFixed = 1 // the counting loader de-duplicates (notes/fixes/C15-*.patch)
@@ -590,6 +749,11 @@ func travCaseFromVal(in Val) *travCase {
 	l := in.(VL)
 	cfg := l[1].(VL)
 	tc := &travCase{api: uint64(l[0].(VN)), sel: selFromVal(cfg[1]), opts: travOptsFromVal(cfg[2])}
+	if len(cfg) > 4 {
+		for _, x := range cfg[4].(VL) {
+			tc.sels = append(tc.sels, selFromVal(x))
+		}
+	}
 	for _, r := range cfg[0].(VL) {
 		c, err := cid.Cast([]byte(r.(VB)))
 		if err != nil {
